@@ -1,2 +1,6 @@
 import Knut.Basic.Date
+import Knut.Wire
 import Knut.Model.Partition
+import Knut.Spec.PartitionSpec
+import Knut.Proofs.Partition
+import Knut.Properties.C11
